@@ -1,6 +1,6 @@
 (* What every patch the parser accepts satisfies: hunks are well-formed for the apply code (context
    counts fit into both sides) and for the writer; creations and deletions have exactly one hunk;
-   every file patch has a name; no name is unsafe (absolute or with a '..' component). *)
+   every file patch has a name; no name is unsafe (absolute or with a '..' component) or empty. *)
 From Coq Require Import List ZArith NArith Bool Lia Arith String.
 Import ListNotations.
 From RQ Require Import Base Apply Parser Writer Quilt ListFacts PlaceProofs RollbackAll ParserProofs WriterProofs.
@@ -99,7 +99,7 @@ Proof.
   - intros Hr. destruct (H4 Hr) as [Ho Hn]. destruct (pf_old fp), (pf_new fp); cbn; split; congruence.
 Qed.
 
-Definition parsed_ok (fp : pfilepatch) : Prop := good_fp fp /\ unsafe_fp fp = false.
+Definition parsed_ok (fp : pfilepatch) : Prop := good_fp fp /\ unsafe_fp fp = false /\ empty_name_fp fp = false.
 
 Theorem parse_patch_loop_good : forall fuel input strip wh header acc p,
   parse_patch_loop fuel input strip wh header acc = Ok (Parsed p) ->
@@ -107,9 +107,10 @@ Theorem parse_patch_loop_good : forall fuel input strip wh header acc p,
 Proof.
   induction fuel as [|f IH]; intros input strip wh header acc p; cbn [parse_patch_loop]; [discriminate|].
   destruct (parse_filepatch input wh) as [[i [h fp]|e]| |] eqn:E; cbn [bind]; try discriminate.
-  - destruct (unsafe_fp (strip_fp strip fp)) eqn:Eu; [discriminate|].
+  - destruct (empty_name_fp (strip_fp strip fp)) eqn:Ee; [discriminate|].
+    destruct (unsafe_fp (strip_fp strip fp)) eqn:Eu; [discriminate|].
     intros H Hacc. eapply IH; [exact H|]. apply Forall_app. split; [assumption|].
-    constructor; [|constructor]. split; [apply strip_fp_good; eapply parse_filepatch_good; eassumption|assumption].
+    constructor; [|constructor]. split; [apply strip_fp_good; eapply parse_filepatch_good; eassumption|split; assumption].
   - destruct e; try discriminate. intros [= <-]. cbn. auto.
 Qed.
 
